@@ -25,7 +25,8 @@ META = dict(
          "mayIndexError, re-checked on the live class every run), every input, location and fuel: no raw IndexError leaves "
          "any _parse call (no_indexerror_escapes), parse_string(parse_all) (parseString_no_indexerror) or scan_string and "
          "therefore search_string/transform_string/split (scanString_no_indexerror); a leaf raises IndexError only when "
-         "matching at or beyond the end of the text, the case _parseNoCache converts (leaf_indexerror_only_at_end). "
+         "matching at or beyond the end of the text, the case _parseNoCache converts (leaf_indexerror_only_at_end); a "
+         "successful _parse of any element never ends before the location it was called at (parse_match_forward). "
          "lineno/col/line consistency for every loc is C14's theorem. PARTIAL: termination is not a theorem (the model "
          "returns `hang` where the code would loop; no fuel bound proved); location bounds, the other internal exception "
          "types, the diagnostic accessors and every class outside the model (Each, Regex, QuotedString, White, Dict, "
@@ -40,7 +41,7 @@ META = dict(
 )
 
 THEOREMS = [
-    "PP.Parse.no_indexerror_escapes",
+    "PP.Parse.no_indexerror_escapes", "PP.Parse.parse_match_forward",
     "PP.Parse.leaf_indexerror_only_at_end",
     "PP.Parse.parseString_no_indexerror",
     "PP.Parse.scanString_no_indexerror",
